@@ -48,10 +48,12 @@ package goat
 //@   nopanic[C12.nopanic]
 //@   ctxaware[C10.read_loop_escapes]
 //@   requires rpc != nil && rpc.Header != nil
-//@   atcall[C06.reset_shape C12.reset_for_unknown C16.return_route] (types.RpcReadWriter).Write :
-//@     | arg2 != nil && arg2.Id == rpc.Id && arg2.Reset_ != nil && arg2.Reset_.Type == "RST_STREAM" && arg2.Trailer != nil && arg2.Body == nil && arg2.Status == nil
-//@     | && arg2.Header != nil && arg2.Header.Method == rpc.Header.Method && arg2.Header.Source == rpc.Header.Destination && arg2.Header.Destination == rpc.Header.Source
-//@   ensures[C06.reset_once C12.reset_for_unknown] ncalls("(types.RpcReadWriter).Write") == old(ncalls("(types.RpcReadWriter).Write")) + 1
+//@   atcall[C06.reset_shape C12.reset_for_unknown C16.return_route] send :
+//@     | arg0 == h.writeChan && arg1 != nil && arg1.Id == rpc.Id && arg1.Reset_ != nil && arg1.Reset_.Type == "RST_STREAM" && arg1.Trailer != nil && arg1.Body == nil && arg1.Status == nil
+//@     | && arg1.Header != nil && arg1.Header.Method == rpc.Header.Method && arg1.Header.Source == rpc.Header.Destination && arg1.Header.Destination == rpc.Header.Source
+//@   ensures[C06.reset_once C12.reset_for_unknown] result == nil ==> ncalls("send") == old(ncalls("send")) + 1
+//@   ensures[C06.reset_once] ncalls("send") <= old(ncalls("send")) + 1
+//@   ensures[C06.reset_through_the_writer C03.reset_through_the_writer] ncalls("(types.RpcReadWriter).Write") == old(ncalls("(types.RpcReadWriter).Write"))
 
 //@ func goat.(*handler).unregisterStream
 //@   nopanic[C12.nopanic C14.nopanic C10.nopanic]
@@ -81,6 +83,10 @@ package goat
 //@   ensures[C10.only_the_stream_unregisters_itself C14.only_the_stream_unregisters_itself] atlock(rpc.Id in h.streams) ==> rpc.Id in h.streams
 //@   ensures[C14.registered_iff_started C05.registered_iff_started] ncalls("go:(*github.com/avos-io/goat.handler).runStream") == old(ncalls("go:(*github.com/avos-io/goat.handler).runStream")) + 1
 //@     | ==> rpc.Id in h.streams
+
+// deferred closure of processStreamingRpc: sends the reset after h.mu has been released
+//@ func goat.(*handler).processStreamingRpc$1
+//@   inline
 
 //@ func goat.contextFromHeaders
 //@   nopanic[C12.nopanic C08.nopanic]
